@@ -85,7 +85,9 @@ pub fn ensure_sidecar(parquet_path: &Path) -> Option<PathBuf> {
     }
 
     static BUILD_LOCK: std::sync::Mutex<()> = std::sync::Mutex::new(());
-    let _guard = BUILD_LOCK.lock().ok()?;
+    // The mutex guards no data: a panic inside an earlier build must not turn
+    // sidecar building off for the rest of the process.
+    let _guard = BUILD_LOCK.lock().unwrap_or_else(|e| e.into_inner());
     if is_fresh(&dir, &src_meta) {
         return Some(dir);
     }
